@@ -38,6 +38,8 @@ OItems(sub)        == [cl |-> "Items", sub |-> sub]
 OBatch(b, dr, sub) == [cl |-> "Batch", b |-> b, drop |-> dr, sub |-> sub]
 OUnbatch(sub)      == [cl |-> "Unbatch", sub |-> sub]
 OCatch(E, sub)     == [cl |-> "Catch", E |-> E, sub |-> sub]
+\* ApplyDataset(apply_function, input): ag is the API term of the function
+OApply(ag, sub) == [cl |-> "Apply", ag |-> ag, sub |-> sub]
 OPrefetch(w, bs, cfe, sub) ==
   [cl |-> "Prefetch", w |-> w, bs |-> bs, cfe |-> cfe, sub |-> sub]
 OCache(sub)        == [cl |-> "Cache", sub |-> sub]
@@ -77,6 +79,7 @@ LastIndexOf(x, s) == CHOOSE j \in 1..Len(s) : s[j] = x /\ \A m \in (j+1)..Len(s)
 
 -----------------------------------------------------------------------------
 RECURSIVE Idx(_), Ord(_), LenO(_), KeysO(_), Gi(_, _), Gs(_, _), It(_, _)
+RECURSIVE BuildUnary(_, _), FreezeB(_)
 
 \* all([ds.X for ds in input_datasets]) over "T"/"F"/exception strings: the
 \* list comprehension evaluates every element first (an exception wins)
@@ -92,7 +95,7 @@ AllGen(flags) ==
 Idx(t) ==
   CASE t.cl \in {"List", "Dict"} -> "T"
     [] t.cl \in {"Map", "Items", "Batch", "Cache", "Cycle"} -> Idx(t.sub)
-    [] t.cl \in {"Filter", "Unbatch", "Catch", "Prefetch"} -> "F"
+    [] t.cl \in {"Filter", "Unbatch", "Catch", "Prefetch", "Apply"} -> "F"
     [] t.cl = "Slice" ->    \* asserts that the input is indexable
          LET f == Idx(t.sub) IN IF f = "F" THEN "AssertionError" ELSE f
     [] t.cl \in {"Concat", "Inter", "Zip", "KeyZip"} ->
@@ -105,6 +108,7 @@ Ord(t) ==
                  "Catch", "Prefetch", "Slice"} -> Ord(t.sub)
     [] t.cl \in {"Concat", "Inter", "Zip"} ->
          AllGen([d \in 1..Len(t.subs) |-> Ord(t.subs[d])])
+    [] t.cl = "Apply" -> "F"
     [] OTHER -> "NotImplementedError"
 
 LenO(t) ==
@@ -371,9 +375,13 @@ CopyOk(t) ==
          \A d \in 1..Len(t.subs) : CopyOk(t.subs[d])
     [] OTHER -> CopyOk(t.sub)
 
-CatchIt(E, sub, wk) ==
-  IF ~CopyOk(sub) THEN ItR(<<>>, "NotImplementedError")
-  ELSE IF wk THEN
+\* input_dataset = self.input_dataset.copy(freeze=True); keys / len / items of THAT
+CatchIt(E, sub0, wk) ==
+  IF ~CopyOk(sub0) THEN ItR(<<>>, "NotImplementedError")
+  ELSE LET fz == FreezeB(sub0) IN
+  IF ~fz.ok THEN ItR(<<>>, fz.exc)
+  ELSE LET sub == fz.obj IN
+  IF wk THEN
     LET ks == KeysO(sub) IN
     IF ~ks.ok THEN ItR(<<>>, ks.exc)
     ELSE DeliverCatching([j \in 1..Len(ks.ks) |->
@@ -394,9 +402,12 @@ PrefetchIt(t, wk) ==
     IN IF "S9" \in Unfixed /\ r.exc \in BaseOnly THEN ItR(r.items, "none") ELSE r
   ELSE IF ~CopyOk(t.sub) THEN ItR(<<>>, "NotImplementedError")
   ELSE IF wk THEN ItR(<<>>, "NotImplementedError")      \* self.keys()
-  ELSE LET l == LenO(t.sub) IN
-       IF ~l.ok THEN ItR(<<>>, l.exc)
-       ELSE LET rs == [j \in 1..l.n |-> Gi(t.sub, j - 1)]
+  \* input_dataset = self.input_dataset.copy(freeze=True); range(len(self.input_dataset))
+  ELSE LET l == LenO(t.sub)
+           fz == FreezeB(t.sub) IN
+       IF ~fz.ok THEN ItR(<<>>, fz.exc)
+       ELSE IF ~l.ok THEN ItR(<<>>, l.exc)
+       ELSE LET rs == [j \in 1..l.n |-> Gi(fz.obj, j - 1)]
             IN IF t.cfe # "none" THEN DeliverCatching(rs, t.cfe)
                ELSE DeliverOutcomes(rs)
 
@@ -457,6 +468,13 @@ It(t, wk) ==
                   IN IF r.ok THEN OkV(PairV(ks.ks[j], r.v)) ELSE r])
          ELSE IF ~l.ok THEN ItR(<<>>, l.exc)
          ELSE DeliverOutcomes([j \in 1..l.n |-> Gi(t, j - 1)])
+    \* frozen = self.copy(freeze=True) = apply_function(input).copy(freeze=True);
+    \* a generator: whatever the function or the copy refuses shows at the first next()
+    [] t.cl = "Apply" ->
+         LET b == BuildUnary(t.ag, t.sub) IN
+         IF ~b.ok THEN ItR(<<>>, b.exc)
+         ELSE LET f == FreezeB(b.obj) IN
+              IF ~f.ok THEN ItR(<<>>, f.exc) ELSE It(f.obj, wk)
     [] t.cl = "Cycle" ->
          LET r == It(t.sub, wk)
              n == Len(r.items)
@@ -470,6 +488,28 @@ It(t, wk) ==
 (* Construction: the factory methods of Dataset, API program -> object     *)
 
 BOk(obj) == [ok |-> TRUE,  obj |-> obj, exc |-> "none"]
+
+\* copy(freeze=True): every class rebuilds itself around frozen copies of its
+\* inputs - the same object for this model - except ApplyDataset, whose frozen
+\* copy is the APPLIED dataset: apply_function(input).copy(freeze=True)
+HasApply(t) ==
+  LET RECURSIVE H(_)
+      H(x) == CASE x.cl \in {"List", "Dict"} -> FALSE
+                [] x.cl = "Apply" -> TRUE
+                [] x.cl \in {"Concat", "Inter", "Zip", "KeyZip"} -> \E d \in 1..Len(x.subs) : H(x.subs[d])
+                [] OTHER -> H(x.sub)
+  IN H(t)
+FreezeB(t) ==
+  IF ~HasApply(t) THEN BOk(t)
+  ELSE CASE t.cl = "Apply" ->
+              LET b == BuildUnary(t.ag, t.sub) IN IF ~b.ok THEN b ELSE FreezeB(b.obj)
+         [] t.cl \in {"Concat", "Inter", "Zip", "KeyZip"} ->
+              LET bs == [d \in 1..Len(t.subs) |-> FreezeB(t.subs[d])]
+                  p  == FirstPos(bs, LAMBDA b : ~b.ok)
+              IN IF p # 0 THEN bs[p]
+                 ELSE BOk([t EXCEPT !.subs = [d \in 1..Len(bs) |-> bs[d].obj]])
+         [] OTHER -> LET b == FreezeB(t.sub) IN
+                     IF ~b.ok THEN b ELSE BOk([t EXCEPT !.sub = b.obj])
 BErr(c)  == [ok |-> FALSE, obj |-> OList(<<>>, FALSE), exc |-> c]
 
 \* SliceDataset.__init__
@@ -599,7 +639,9 @@ BuildUnary(a, t) ==
                          vs == [j \in 1..Len(r.items) |-> r.items[j].tp[2]]
                      IN IF NoDup(ks) THEN BOk(ODict(ks, vs)) ELSE BOk(OList(vs, FALSE))
     [] a.op = "catch" -> BOk(OCatch(a.E, t))
-    [] a.op = "copy"  -> IF CopyOk(t) THEN BOk(t) ELSE BErr("NotImplementedError")
+    [] a.op = "copy"  -> IF ~CopyOk(t) THEN BErr("NotImplementedError")
+                         ELSE IF a.freeze THEN FreezeB(t) ELSE BOk(t)
+    [] a.op = "apply" -> IF a.lazy THEN BOk(OApply(a.ag, t)) ELSE BuildUnary(a.ag, t)
     [] a.op = "prefetch" ->
          LET l == LenO(t) IN
          IF a.w # 1 /\ ~l.ok THEN BErr("RuntimeError")
